@@ -92,6 +92,7 @@ type c02Rewrite struct {
 type c02Phase struct {
 	Rewrites []c02Rewrite `json:"rewrites"`
 	MTime    int64        `json:"mtime"`
+	PauseMS  int          `json:"pause_ms"` // the engine sits idle that long before the phase starts
 	Threads  [][]c02Call  `json:"threads"`
 }
 
@@ -213,7 +214,13 @@ func c02Exec(e *twig.Engine, c *c02Prepared) (r c02Res) {
 		return c02Res{C: "ok", O: out}
 	case "renderto":
 		var b bytes.Buffer
-		if err := e.RenderTo(&b, c.n, vars); err != nil {
+		// every other call writes to a destination that is a plain io.Writer (no WriteString method, like a
+		// network connection or a compressing writer) and is a little slow
+		var w io.Writer = &b
+		if len(c.n)%2 == 0 {
+			w = &c02PlainWriter{b: &b}
+		}
+		if err := e.RenderTo(w, c.n, vars); err != nil {
 			return c02Res{C: c02Class(err)}
 		}
 		return c02Res{C: "ok", O: b.String()}
@@ -238,6 +245,17 @@ func c02Exec(e *twig.Engine, c *c02Prepared) (r c02Res) {
 		return c02Res{C: c02Class(e.RegisterString(c.n, c.s))}
 	}
 	return c02Res{C: "unknown-op"}
+}
+
+// c02PlainWriter has Write only; it yields the processor in the middle of taking the bytes over
+type c02PlainWriter struct{ b *bytes.Buffer }
+
+func (w *c02PlainWriter) Write(p []byte) (int, error) {
+	h := len(p) / 2
+	w.b.Write(p[:h])
+	runtime.Gosched()
+	w.b.Write(p[h:])
+	return len(p), nil
 }
 
 func c02Root(casesPath string, id int) string {
@@ -419,6 +437,9 @@ func runC02Child(cases string, res *Result) {
 					if err := c02ApplyRewrites(root, &phases[p]); err != nil {
 						fail(err)
 					}
+					if phases[p].PauseMS > 0 && rep == 0 {
+						time.Sleep(time.Duration(phases[p].PauseMS) * time.Millisecond)
+					}
 				}
 				got := make([][]c02Res, len(prep[p]))
 				start := make(chan struct{})
@@ -442,7 +463,7 @@ func runC02Child(cases string, res *Result) {
 				close(start)
 				select {
 				case <-done:
-				case <-time.After(40 * time.Second):
+				case <-time.After(150 * time.Second):
 					fmt.Fprintf(os.Stderr, "C02-HANG id=%d rep=%d\n", w.ID, rep)
 					buf := make([]byte, 1<<16)
 					n := runtime.Stack(buf, true)
@@ -592,7 +613,7 @@ func runC02(cases string, res *Result) {
 			os.WriteFile(bf, b.Bytes(), 0o644)
 		}
 		os.Remove(bf + ".out")
-		ctx, cancel := context.WithTimeout(context.Background(), 300*time.Second)
+		ctx, cancel := context.WithTimeout(context.Background(), 1200*time.Second)
 		cmd := exec.CommandContext(ctx, os.Args[0], "C02-child", bf, bf+".result")
 		cmd.Env = append(os.Environ(), "GORACE=halt_on_error=0 exitcode=66", "GOMAXPROCS=16")
 		var stderr bytes.Buffer
